@@ -69,10 +69,17 @@ def build_harness(name, repo, inc=None, extra_flags=(), tag=""):
     # one binary per source tree, so that concurrent checks of different trees do not clobber each other
     rtag = "" if os.path.abspath(repo) == "/repo" else "." + hashlib.sha1(os.path.abspath(repo).encode()).hexdigest()[:8]
     exe = os.path.join(BUILD, name + tag + rtag)
+    opt = ["-O1"]
+    if os.environ.get("VERIF_COVERAGE"):
+        # bin/implcov: the same pipeline with gcov-instrumented harnesses (own binaries, own evidence directory)
+        os.makedirs(os.path.join(BUILD, "covbin"), exist_ok=True)
+        exe = os.path.join(BUILD, "covbin", name + tag + rtag)
+        opt = ["-O0", "--coverage", "-DVERIF_COVERAGE_BUILD"]
+        key = key + "cov"
     stamp = exe + ".stamp"
     if os.path.exists(exe) and os.path.exists(stamp) and open(stamp).read() == key:
         return exe
-    cmd = ["g++", "-std=c++17", "-O1", "-D" + GUARD, "-I" + HARNESS] + ["-I" + d for d in incdirs] + list(extra_flags) + [src, "-o", exe]
+    cmd = ["g++", "-std=c++17"] + opt + ["-D" + GUARD, "-I" + HARNESS] + ["-I" + d for d in incdirs] + list(extra_flags) + [src, "-o", exe]
     t0 = time.time()
     rc, out = sh(cmd, timeout=900)
     if rc != 0:
